@@ -46,6 +46,7 @@ def tasks(tier):
     from mc.checks import c02
     t = [('expr', i, NPARTS) for i in range(NPARTS)]
     t += [('misc', i, 16) for i in range(16)]
+    t += [('deep', i, 12) for i in range(12)]
     t += [('strs', tier, i, NPARTS) for i in range(NPARTS)]
     t += [('scope', tier, i, NPARTS) for i in range(NPARTS)]
     t += [('feat', tier, i, 16) for i in range(16)]
@@ -153,6 +154,9 @@ def run_task(task):
         for j, e in enumerate(lits.depth1()):
             if j % nparts == part and j % 5 == 0:
                 check('lit', 'x=' + e, small[:3], res, seen)
+    elif kind == 'deep':
+        _, part, nparts = task
+        run_deep(part, nparts, res)
     elif kind == 'strs':
         _, tier, part, nparts = task
         for label, src in strs.cases('quick', part, nparts):
@@ -207,7 +211,82 @@ def run_task(task):
     return res
 
 
+# ---- depth ladders ---------------------------------------------------------------------------------------------------------------
+DEEP_SETS = [('all-off', pm.ALL_OFF), ('default', pm.DEFAULT_ON), ('all-on', pm.ALL_ON)]
+
+
+def in_fresh_thread(fn):
+    """run fn() on a new thread: the Python stack starts empty there (so the depth at which RecursionError appears does not depend on how deep
+    the harness happens to be) and the C stack is large enough for the interpreter's own recursion"""
+    import threading
+    box = []
+
+    def body():
+        try:
+            box.append(('ok', fn()))
+        except BaseException as e:      # noqa
+            box.append(('raises', e))
+    old = threading.stack_size(512 * 1024 * 1024)
+    try:
+        t = threading.Thread(target=body)
+        t.start()
+        t.join()
+    finally:
+        threading.stack_size(old)
+    return box[0]
+
+
+def deep_outcome(src, on):
+    """None if the implication holds for (src, on); 'skip' if the interpreter itself does not compile src; else (kind, detail)"""
+    def compiles():
+        compile(src, '<in>', 'exec', dont_inherit=True)
+    st, r = in_fresh_thread(compiles)
+    if st != 'ok':
+        return 'skip'
+    st, r = in_fresh_thread(lambda: pm.minify(src, on))
+    if st != 'ok':
+        return ('raises:%s' % type(r).__name__, 'options %s: minify raised %r for a source of %d characters that compile() accepts' % (pm.optkey(on), r, len(src)))
+    out = r
+    st, r = in_fresh_thread(lambda: compile(out, '<out>', 'exec', dont_inherit=True))
+    if st != 'ok':
+        return ('output-does-not-compile:%s' % type(r).__name__, 'options %s: %r' % (pm.optkey(on), r))
+    return None
+
+
+def run_deep(part, nparts, res):
+    from mc.gen import deep
+    for i, (name, make) in enumerate(deep.SHAPES):
+        if i % nparts != part:
+            continue
+        for oname, on in DEEP_SETS:
+            for n in deep.RUNGS:
+                src = make(n)
+                v = deep_outcome(src, on)
+                if v == 'skip':
+                    res.count('deep_interpreter_limit')
+                    continue
+                res.count('evaluations')
+                res.count('distinct_nontrivial')
+                res.count('deep_cases')
+                if v is not None:
+                    # only the first failing rung of a ladder is reported (and run): everything above it fails for the same reason
+                    res.violation('%s|deep:%s:first-failing-depth=%d:%s' % (v[0], name, n, oname),
+                                  {'label': 'deep:' + name, 'deep': [name, n, oname], 'source': src[:200], 'options': sorted(on)}, v[1])
+                    break
+        res.sample({'deep_shape': name, 'rungs': deep.RUNGS}, 2)
+
+
 def replay(case):
+    if case.get('deep'):
+        from mc.gen import deep
+        name, n, oname = case['deep']
+        make = dict(deep.SHAPES)[name]
+        on = dict(DEEP_SETS)[oname]
+        for m in deep.RUNGS:        # the signature names the FIRST failing rung
+            v = deep_outcome(make(m), on)
+            if v not in (None, 'skip'):
+                return {'signature': '%s|deep:%s:first-failing-depth=%d:%s' % (v[0], name, m, oname), 'detail': v[1]}
+        return None
     src = case.get('source_full') or case['source']
     if 'interpreter' in case:
         from mc.checks import c02
